@@ -9,7 +9,7 @@ every partition of a population over members is not decided.
 """
 import ast
 
-from ..astutil import call_simple_name, exc_name, guard_chain, names_in, returns_of, short
+from ..astutil import call_simple_name, exc_name, guard_chain, names_in, pm, pmall, returns_of, short
 from ..cfg import cfg_of, node_calls
 from ..forward import flow_of
 from ..loader import AnalysisError, FunctionInfo, body_walk, norm, walk_no_nested
@@ -126,7 +126,7 @@ def rule_dedup(ctx):
                   expected="return deduplicate(<concatenation>) on every non-empty path", found=found)
     dd = prog.func("stix2.utils::deduplicate")
     t = norm(dd.node)
-    ok = "obj.get('modified') or obj.get('created')" in t and "[obj['id'], ver]" in t and "list(unique_objs.values())" in t
+    ok = pmall(t, "for $o in %s" % dd.params[0], "$v = $o.get('modified') or $o.get('created')", "$u[$o['id'], $v] = $o", "return list($u.values())") is not None
     run.check(ok, R, key(dd.module.relpath, dd.qualname, "key-is-id-and-version"), "deduplicate() does not key on (id, modified-or-created)",
               file=dd.module.relpath, line=dd.node.lineno, function=dd.qualname, expected="unique[(id, modified or created)] = obj",
               found=short(dd.node, 200))
@@ -196,7 +196,8 @@ def rule_newest(ctx):
               expected="compare-and-replace with `candidate > best` (or sorted()[-1] / max(key=modified))", found=found)
     # members are all asked before selecting (selection loop is over all_data filled by the member loop)
     t = norm(fi.node)
-    run.check("all_data.append(data)" in t and "for ds in self.data_sources" in t, R, key(rel, fi.qualname, "collects-all-members"),
+    run.check(pmall(t, "for $ds in self.data_sources", "$d = $ds.get(", "$all.append($d)", "for $o in $all") is not None, R,
+              key(rel, fi.qualname, "collects-all-members"),
               "the newest version is chosen before every member was asked", file=rel, line=fi.node.lineno, function=fi.qualname,
               expected="collect every member's answer, then select", found="changed")
 
@@ -218,13 +219,18 @@ def rule_navigation(ctx):
     rel = fi.module.relpath
     # queries issued: self.query(filters + [Filter(<field>, '=', obj_id)]) under guards on source_only / target_only
     table = {}
+    t0 = norm(fi.node)
+    bid = pm(t0, "$id = %s['id']" % fi.params[1])
+    bfl = pm(t0, "$fl = [Filter('type', '=', 'relationship')]")
+    OID = bid["id"] if bid else "?"
+    FL = bfl["fl"] if bfl else "?"
     qs = [c for c in body_walk(fi.node) if isinstance(c, ast.Call) and norm(c.func) == "self.query"]
     for q in qs:
         fields = [x.args[0].value for x in ast.walk(q) if isinstance(x, ast.Call) and call_simple_name(x) == "Filter"
                   and x.args and isinstance(x.args[0], ast.Constant) and len(x.args) == 3 and norm(x.args[1]) == "'='"
-                  and norm(x.args[2]) == "obj_id"]
+                  and norm(x.args[2]) == OID]
         gc = [(norm(t), pol) for t, pol, _ in guard_chain(q)]
-        uses_base = "filters" in names_in(q)
+        uses_base = FL in names_in(q)
         for f in fields:
             table[f] = (gc, uses_base)
     want = {"source_ref": ([("not target_only", True)], True), "target_ref": ([("not source_only", True)], True)}
@@ -238,8 +244,7 @@ def rule_navigation(ctx):
     run.check(bool(both), R, key(rel, fi.qualname, "both-flags-raise"), "(source_only and target_only) is not refused", file=rel,
               line=fi.node.lineno, function=fi.qualname, expected="raise ValueError", found="absent")
     t = norm(fi.node)
-    ok = "filters = [Filter('type', '=', 'relationship')]" in t and \
-        "filters.append(Filter('relationship_type', '=', relationship_type))" in t
+    ok = bfl is not None and "%s.append(Filter('relationship_type', '=', relationship_type))" % FL in t
     rt = [n for n in body_walk(fi.node) if isinstance(n, ast.If) and norm(n.test) == "relationship_type"]
     run.check(ok and bool(rt), R, key(rel, fi.qualname, "base-filters"), "relationships() does not restrict to relationship objects "
               "(and the optional relationship_type)", file=rel, line=fi.node.lineno, function=fi.qualname,
@@ -254,9 +259,10 @@ def rule_navigation(ctx):
     t = norm(rt_.node)
     facts = {
         "uses-relationships-with-all-options": "self.relationships(obj, relationship_type, source_only, target_only)" in t,
-        "collects-both-ends": "ids.update((r.source_ref, r.target_ref))" in t,
-        "discards-own-id": "ids.discard(obj_id)" in t,
-        "queries-each-id-with-caller-filters": "Filter('id', '=', i)" in t and "FilterSet(filters)" in t and "for i in ids" in t,
+        "collects-both-ends": pmall(t, "$rels = self.relationships(", "for $r in $rels", "$ids.update(($r.source_ref, $r.target_ref))") is not None,
+        "discards-own-id": pmall(t, "$oid = %s['id']" % rt_.params[1], "$ids.update((", "$ids.discard($oid)") is not None,
+        "queries-each-id-with-caller-filters": pmall(t, "$fs = FilterSet(filters)", "for $i in $ids", "Filter('id', '=', $i)") is not None
+        and pm(t, "[$f for $f in $fs] + ") is not None,
     }
     for nme, okf in sorted(facts.items()):
         run.check(okf, R, key(rel, rt_.qualname, nme), "related_to() lost a step: %s" % nme, file=rel, line=rt_.node.lineno,
@@ -265,7 +271,8 @@ def rule_navigation(ctx):
     for cid in (DS + "::DataSource", "stix2.environment::Environment"):
         co = prog.cls(cid).methods.get("creator_of")
         t = norm(co.node) if co is not None else ""
-        ok = "obj.get('created_by_ref', '')" in t and "return self.get(creator_id)" in t and "return None" in t
+        ok = co is not None and pmall(t, "$c = %s.get('created_by_ref', '')" % co.params[1], "if $c:", "return self.get($c)") is not None \
+            and "return None" in t
         run.check(ok, R, key(co.module.relpath if co else "?", "%s.creator_of" % cid.split("::")[1], "lookup-created_by_ref"),
                   "creator_of() does not look the created_by_ref up through get()", file=co.module.relpath if co else None,
                   line=co.node.lineno if co else None, function="creator_of", expected="self.get(obj['created_by_ref']) or None",
